@@ -24,3 +24,63 @@ Definition datagrams (dest : N) (lg : list attempt) : list send :=
 
 (* QueuingMetricSink::stats / flush delegate to the wrapped sink *)
 Definition queuing_stats (wrapped : stats) : stats := wrapped.
+
+(* ------------------------------------------------------------------ scenarios on local sockets
+   What the correspondence check drives (harness bin `sock`): emits and flushes on one sink while a
+   listener goes away ([SDown]: every send_to is refused from then on) and comes back ([SUp]).
+   [queued] = the sink sits behind a QueuingMetricSink: emit then answers for the queue (Ok with
+   the metric's length) whatever the socket says; everything else is unchanged. *)
+Inductive sop := SEmit (m : str) | SFlush | SDown | SUp.
+Inductive sres := SK (n : N) | SE | SNone.
+
+Definition os_of (up : bool) : os_outcome := if up then OsOk else OsErr 0.
+
+(* UdpMetricSink / UnixMetricSink *)
+Fixpoint sc_unbuf (queued up : bool) (st : stats) (ops : list sop) : list sres * list send * stats :=
+  match ops with
+  | [] => ([], [], st)
+  | SEmit m :: r =>
+    let '(sd, res, st1) := sock_emit 0 st m (os_of up) in
+    let '(rs, dg, st2) := sc_unbuf queued up st1 r in
+    (match res with
+     | inl n => SK n
+     | inr _ => if queued then SK (N.of_nat (length m)) else SE
+     end :: rs,
+     match res with inl _ => sd :: dg | inr _ => dg end, st2)
+  | SFlush :: r => let '(rs, dg, st2) := sc_unbuf queued up st r in (SK 0 :: rs, dg, st2)
+  | SDown :: r => let '(rs, dg, st2) := sc_unbuf queued false st r in (SNone :: rs, dg, st2)
+  | SUp :: r => let '(rs, dg, st2) := sc_unbuf queued true st r in (SNone :: rs, dg, st2)
+  end.
+
+(* BufferedUdpMetricSink / BufferedUnixMetricSink: the writer with the fault script the listener's
+   state dictates for the (at most 6) underlying writes of one call *)
+Definition up_script (up : bool) : list outcome := repeat (if up then WOk else WErr 0) 6.
+Definition with_script (s : st) (up : bool) : st := set_io s (up_script up) (lg s).
+
+Fixpoint sc_buf (queued up : bool) (s : st) (n : nat) (ops : list sop) : list sres * st * nat * bool :=
+  match ops with
+  | [] => ([], s, n, up)
+  | SEmit m :: r =>
+    let '(x, s1) := step (with_script s up) n (Emit m) in
+    let '(rs, s2, n2, up2) := sc_buf queued up s1 (S n) r in
+    (match x with
+     | OOk k => SK (N.of_nat k)
+     | _ => if queued then SK (N.of_nat (length m)) else SE
+     end :: rs, s2, n2, up2)
+  | SFlush :: r =>
+    let '(x, s1) := step (with_script s up) n Flush in
+    let '(rs, s2, n2, up2) := sc_buf queued up s1 (S n) r in
+    (match x with OOk k => SK (N.of_nat k) | _ => SE end :: rs, s2, n2, up2)
+  | SDown :: r => let '(rs, s2, n2, up2) := sc_buf queued false s n r in (SNone :: rs, s2, n2, up2)
+  | SUp :: r => let '(rs, s2, n2, up2) := sc_buf queued true s n r in (SNone :: rs, s2, n2, up2)
+  end.
+
+(* a whole scenario: results per op, the statistics read after the last op (before the sink goes
+   away), and the datagrams that reached the wire including those of the final drop *)
+Definition sc_buffered (cap : option nat) (queued : bool) (ops : list sop)
+  : list sres * list str * stats :=
+  let '(rs, s, n, up) := sc_buf queued true (sink_init cap []) 0 ops in
+  (rs, map sd_payload (datagrams 0 (lg (mlw_drop (with_script s up) n))), buffered_stats (lg s)).
+
+Definition sc_unbuffered (queued : bool) (ops : list sop) : list sres * list str * stats :=
+  let '(rs, dg, st) := sc_unbuf queued true stats0 ops in (rs, map sd_payload dg, st).
